@@ -203,6 +203,28 @@ fn reserved_in_valid_basis<V: Fv>(ctx: &Ctx, nkeys: usize, rep: &mut Report) {
     rep.merge(r);
 }
 
+/// Fingerprint-colliding pairs of VALID public-key and signature encodings (collide.rs), decoded
+/// A, B, A on one thread: each must decode to itself (canonical re-encoding).
+fn collision_sequences<V: Fv>(ctx: &Ctx, rep: &mut Report) {
+    let n = ctx.sz(150_000, 1_000_000);
+    for ty in [Ty::Pk, Ty::Sig] {
+        let gen = |i: usize| -> Option<Vec<u8>> {
+            let mut rng = rng_for(ctx.seed ^ 0xC011, &format!("c06-collide-{}-{}-{}", V::NAME, ty.name(), i));
+            Some(if ty == Ty::Pk { synth_pk::<V>(&mut rng) } else { synth_sig::<V>(&mut rng) })
+        };
+        for (name, a, b) in crate::collide::pairs_streaming(n, gen, 2) {
+            let (xa, xb) = (gen(a).unwrap(), gen(b).unwrap());
+            let cls = format!("collide-{}", name);
+            check_one::<V>(ty, &cls, &xa, rep);
+            check_one::<V>(ty, &cls, &xb, rep);
+            check_one::<V>(ty, &cls, &xa, rep);
+            rep.count("fingerprint_colliding_pairs", 1);
+            rep.count(&format!("collide_{}_{}", ty.name(), name), 1);
+            rep.nontrivial(format!("collide|{}|{}|{}|{}|{}", V::NAME, ty.name(), name, a, b).as_bytes());
+        }
+    }
+}
+
 /// each variant's valid encodings offered to the other variant's decoders
 fn cross_variant(ctx: &Ctx, rep: &mut Report) {
     let mut rng = rng_for(ctx.seed, "c06-cross");
@@ -222,6 +244,9 @@ pub fn canonical(ctx: &Ctx, rep: &mut Report) {
     run_v::<F512>(ctx, rep);
     run_v::<F1024>(ctx, rep);
     cross_variant(ctx, rep);
+    collision_sequences::<F512>(ctx, rep);
+    collision_sequences::<F1024>(ctx, rep);
+    rep.require("fingerprint_colliding_pairs", 20);
     reserved_in_valid_basis::<F512>(ctx, ctx.sz(12, 200), rep);
     reserved_in_valid_basis::<F1024>(ctx, ctx.sz(3, 16), rep);
     rep.require("reserved_in_valid_basis_g", 2);
